@@ -34,6 +34,7 @@ DictV(kt, vt, es) == [k |-> "dict", kt |-> kt, vt |-> vt, es |-> es]   \* es: se
 Comp(n)       == [k |-> "comp", n |-> n]                \* S(), S2(), En.a
 FunV(pure, ps, r) == [k |-> "fun", pure |-> pure, ps |-> ps, r |-> r]
 RefV(a, t, x) == [k |-> "ref", a |-> a, t |-> t, x |-> x]   \* &x as auth(a) &t ; x names the referenced variable
+ResV(n)       == [k |-> "res", n |-> n]                 \* <- create R()   (a resource value)
 SomeV(v)      == [k |-> "some", v |-> v]
 NilV          == [k |-> "nil"]
 
@@ -48,6 +49,7 @@ DynType(v) ==
     [] v.k = "carr"   -> CArr(v.t, Len(v.es))
     [] v.k = "dict"   -> Dict(v.kt, v.vt)
     [] v.k = "comp"   -> Nom(v.n)
+    [] v.k = "res"    -> Nom(v.n)
     [] v.k = "fun"    -> Fun(v.pure, "none", v.ps, v.r)
     [] v.k = "ref"    -> Ref(v.a, Referent(v.x))     \* the referenced value's own type, not the borrow type v.t:
                                                         \* `&sv as &{I1}` can be cast back to &S (type narrowing)
@@ -78,6 +80,34 @@ InstOk(v, held, t) == Sub(HeldType(v, held), t)
 InstFwd(v, held, t) == IF v.k = "ref" THEN Sub(Referent(v.x), t) ELSE InstOk(v, held, t)
 
 IsOptionalValue(v) == v.k \in {"some", "nil"}
+
+\* ------------------------------------------------ the result of a successful cast
+\* "A successful cast yields the original value": the value the cast looked at (v itself for the
+\* Any* targets, its payload otherwise), boxed into optionals only as far as the target's own optional
+\* depth requires.  In particular a cast to AnyStruct? / AnyResource?? never *removes* optional layers.
+RECURSIVE OptDepth(_)
+OptDepth(t) == IF t.k = "opt" THEN 1 + OptDepth(t.t) ELSE 0
+RECURSIVE BoxTo(_, _)
+BoxTo(t, n) == IF OptDepth(t) >= n THEN t ELSE BoxTo(Opt(t), n)
+ResultType(v, held, t) == BoxTo(HeldType(IF AnyTarget(t) THEN v ELSE Unbox(v), held), OptDepth(t))
+RECURSIVE OptN(_, _)
+OptN(t, n) == IF n = 0 THEN t ELSE Opt(OptN(t, n - 1))
+RECURSIVE SomeN(_, _)
+SomeN(v, n) == IF n = 0 THEN v ELSE SomeV(SomeN(v, n - 1))
+\* optional depth 0..3 of a struct, a number and a resource against Any* and concrete targets of depth 0..3
+DepthVals    == {SomeN(x, d) : x \in {Comp("S"), Num("Int"), ResV("R")}, d \in 0..3}
+DepthTargets == {OptN(x, n) : x \in {P("AnyStruct"), P("AnyResource"), Nom("S"), Nom("R"), P("Int"), Inter({"I1"}), Inter({"RI"})}, n \in 0..3}
+\* the checker only admits casts within one kind
+SameKind(v, t) == IsRes(DynType(v)) = IsRes(t)
+\* identity, as the property states it: on the Any* targets the result is the operand itself whenever
+\* the operand is at least as optional as the target
+IdentityLemma == \A v \in DepthVals : \A t \in DepthTargets :
+                   AnyTarget(t) /\ SameKind(v, t) /\ OptDepth(t) <= OptDepth(DynType(v)) =>
+                     CastOk(v, "any", t) /\ ResultType(v, "any", t) = DynType(v)
+DepthRow(v) == [kind |-> "depth", v |-> v, decl |-> DynType(v), resource |-> IsRes(DynType(v)),
+                targets |-> LET ts == SetToSeq({t \in DepthTargets : SameKind(v, t)})
+                            IN [i \in 1..Len(ts) |-> [t |-> ts[i], ok |-> CastOk(v, "any", ts[i]),
+                                                       result |-> ResultType(v, "any", ts[i])]]]
 
 \* ------------------------------------------------------------------ the universes
 \* targets: struct-kinded types a program can write after `as?` on an AnyStruct value
